@@ -90,16 +90,16 @@ Qed.
 (* a counted sequence of prefix-coded elements is uniquely decodable *)
 Lemma flat_map_pf {A B} (enc : A -> bytes) (enc' : B -> bytes) (R : A -> B -> Prop) l1 l2 r1 r2 :
   length l1 = length l2 ->
-  (forall a, In a l1 -> forall b s1 s2, enc a ++ s1 = enc' b ++ s2 -> R a b /\ s1 = s2) ->
+  (forall a, In a l1 -> forall b, In b l2 -> forall s1 s2, enc a ++ s1 = enc' b ++ s2 -> R a b /\ s1 = s2) ->
   flat_map enc l1 ++ r1 = flat_map enc' l2 ++ r2 ->
   Forall2 R l1 l2 /\ r1 = r2.
 Proof.
   revert l2. induction l1 as [|a l1 IH]; intros [|b l2] Hl Hpf H; simpl in *; try discriminate.
   - split; [constructor|exact H].
   - rewrite <- !app_assoc in H.
-    destruct (Hpf a (or_introl eq_refl) b _ _ H) as [Hab H'].
+    destruct (Hpf a (or_introl eq_refl) b (or_introl eq_refl) _ _ H) as [Hab H'].
     destruct (IH l2) as [Hf Hr]; [lia| |exact H'|].
-    + intros a' Ha'. apply Hpf. right. exact Ha'.
+    + intros a' Ha' b' Hb'. apply Hpf; right; assumption.
     + split; [constructor; assumption|exact Hr].
 Qed.
 
@@ -113,7 +113,7 @@ Proof.
   apply enc_array_hdr_pf in H as [Hn H].
   apply (flat_map_pf enc_string enc_string eq) in H; [|exact Hn|].
   - destruct H as [Hf Hr]. split; [apply Forall2_eq; exact Hf|exact Hr].
-  - intros a _ b s1 s2. apply enc_string_pf.
+  - intros a _ b _ s1 s2. apply enc_string_pf.
 Qed.
 
 (* ------------------------------------------------------------------ field sequences *)
@@ -177,35 +177,21 @@ End SerInd.
 Definition enc_entry (kv : ser * ser) : bytes := enc_ser (fst kv) ++ enc_ser (snd kv).
 
 Lemma enc_ser_array l : enc_ser (SArray l) = enc_array_hdr (length l) ++ flat_map enc_ser l.
-Proof.
-  simpl. apply f_equal. apply f_equal. induction l as [|x l IH]; simpl; [reflexivity|]. rewrite IH. reflexivity.
-Qed.
+Proof. reflexivity. Qed.
 
 Lemma enc_ser_map l : enc_ser (SMap l) = enc_map_hdr (length l) ++ flat_map enc_entry l.
-Proof.
-  simpl. apply f_equal. apply f_equal. induction l as [|[k x] l IH]; simpl; [reflexivity|].
-  rewrite IH. unfold enc_entry. simpl. rewrite <- app_assoc. reflexivity.
-Qed.
+Proof. reflexivity. Qed.
 
 Lemma ser_wf_array l : ser_wf (SArray l) = true <-> Forall (fun x => ser_wf x = true) l.
-Proof.
-  simpl. induction l as [|x l IH]; simpl.
-  - split; [constructor|reflexivity].
-  - rewrite andb_true_iff, IH. split.
-    + intros [H1 H2]. constructor; assumption.
-    + intro H. inversion H; auto.
-Qed.
+Proof. simpl. rewrite forallb_forall, Forall_forall. reflexivity. Qed.
 
 Lemma ser_wf_map l :
   ser_wf (SMap l) = true <-> Forall (fun kv => ser_wf (fst kv) = true /\ ser_wf (snd kv) = true) l.
 Proof.
-  simpl. induction l as [|[k x] l IH]; simpl.
-  - split; [constructor|reflexivity].
-  - rewrite !andb_true_iff, IH. split.
-    + intros [[H1 H2] H3]. constructor; simpl; auto.
-    + intro H. inversion H as [|? ? [H1 H2] H3]; subst. simpl in *. auto.
+  simpl. rewrite forallb_forall, Forall_forall. split; intros H x Hx; specialize (H x Hx).
+  - apply andb_true_iff in H. exact H.
+  - apply andb_true_iff. exact H.
 Qed.
-
 
 Ltac tagmismatch H :=
   exfalso; repeat (rewrite ?enc_ser_array, ?enc_ser_map in H);
@@ -280,3 +266,338 @@ Proof.
   - inversion W1; subst. inversion W2; subst.
     apply enc_ser_pf in H as [-> H]; try assumption. f_equal. apply IH; assumption.
 Qed.
+
+(* ------------------------------------------------------------------ structpb values *)
+Section PbInd.
+  Variable P : pbval -> Prop.
+  Hypothesis Hnull : P PNull.
+  Hypothesis Hnum : forall b, P (PNum b).
+  Hypothesis Hstr : forall s, P (PStr s).
+  Hypothesis Hbool : forall b, P (PBool b).
+  Hypothesis Hunset : P PUnset.
+  Hypothesis Hlist : forall l, Forall P l -> P (PList l).
+  Hypothesis Hstruct : forall fs, Forall (fun kv => P (snd kv)) fs -> P (PStruct fs).
+
+  Fixpoint pbval_ind' (v : pbval) : P v :=
+    match v with
+    | PNull => Hnull | PNum b => Hnum b | PStr s => Hstr s | PBool b => Hbool b | PUnset => Hunset
+    | PList l => Hlist l ((fix go (l : list pbval) : Forall P l :=
+                             match l with
+                             | [] => Forall_nil P
+                             | x :: l' => Forall_cons x (pbval_ind' x) (go l')
+                             end) l)
+    | PStruct fs => Hstruct fs ((fix go (l : list (bytes * pbval)) : Forall (fun kv => P (snd kv)) l :=
+                                   match l with
+                                   | [] => Forall_nil _
+                                   | kv :: l' => Forall_cons kv (pbval_ind' (snd kv)) (go l')
+                                   end) fs)
+    end.
+End PbInd.
+
+(* semantic equality of two structpb values: equal up to the order of struct fields, at every depth *)
+Inductive pb_equiv : pbval -> pbval -> Prop :=
+| PE_null : pb_equiv PNull PNull
+| PE_num b : pb_equiv (PNum b) (PNum b)
+| PE_str s : pb_equiv (PStr s) (PStr s)
+| PE_bool b : pb_equiv (PBool b) (PBool b)
+| PE_unset : pb_equiv PUnset PUnset
+| PE_list l1 l2 : Forall2 pb_equiv l1 l2 -> pb_equiv (PList l1) (PList l2)
+| PE_struct fs1 fs2 fs1' fs2' :
+    Permutation fs1 fs1' -> Permutation fs2 fs2' ->
+    Forall2 (fun a b => fst a = fst b /\ pb_equiv (snd a) (snd b)) fs1' fs2' ->
+    pb_equiv (PStruct fs1) (PStruct fs2).
+
+Definition kv_bytes (kv : bytes * pbval) : bytes := enc_string (fst kv) ++ enc_pb (snd kv).
+Definition ke_bytes (ke : bytes * bytes) : bytes := enc_string (fst ke) ++ snd ke.
+Definition kenc (kv : bytes * pbval) : bytes * bytes := (fst kv, enc_pb (snd kv)).
+
+Lemma flat_map_map {A B C} (f : B -> list C) (g : A -> B) l :
+  flat_map f (map g l) = flat_map (fun x => f (g x)) l.
+Proof. induction l as [|x l IH]; simpl; [reflexivity|]. rewrite IH. reflexivity. Qed.
+
+Lemma enc_pb_list l : enc_pb (PList l) = enc_array_hdr (length l) ++ flat_map enc_pb l.
+Proof. reflexivity. Qed.
+
+Lemma enc_pb_struct fs :
+  enc_pb (PStruct fs) = enc_map_hdr (length fs) ++ flat_map kv_bytes (sort_fields fs).
+Proof.
+  change (enc_pb (PStruct fs)) with
+    (enc_map_hdr (length fs) ++ flat_map ke_bytes (go_isort kless (map kenc fs))).
+  f_equal. unfold sort_fields.
+  rewrite <- (go_isort_map kenc kless kless); [|reflexivity].
+  rewrite flat_map_map. reflexivity.
+Qed.
+
+Lemma sort_fields_perm fs : Permutation (sort_fields fs) fs.
+Proof. apply go_isort_perm. Qed.
+
+Lemma pb_wf_list l : pb_wf (PList l) = true <-> Forall (fun x => pb_wf x = true) l.
+Proof. simpl. rewrite forallb_forall, Forall_forall. reflexivity. Qed.
+
+Lemma pb_wf_struct fs : pb_wf (PStruct fs) = true <-> Forall (fun kv => pb_wf (snd kv) = true) fs.
+Proof. simpl. rewrite forallb_forall, Forall_forall. reflexivity. Qed.
+
+Ltac pbmismatch H :=
+  exfalso; rewrite ?enc_pb_list, ?enc_pb_struct in H;
+  unfold enc_bool, enc_null, enc_unset, enc_u64, enc_string, enc_array_hdr, enc_map_hdr in H;
+  simpl in H; untag; discriminate H.
+
+(* the encoding is a prefix code, and equal encodings mean semantically equal values *)
+Theorem enc_pb_pf v1 : forall v2 r1 r2,
+  pb_wf v1 = true -> pb_wf v2 = true ->
+  enc_pb v1 ++ r1 = enc_pb v2 ++ r2 -> pb_equiv v1 v2 /\ r1 = r2.
+Proof.
+  induction v1 as [ |b|s|b| |l IHl|fs IHfs] using pbval_ind'; intros v2 r1 r2 W1 W2 H.
+  - destruct v2; try (pbmismatch H). simpl in H. unfold enc_null in H. simpl in H.
+    apply cons_eq_inv in H as [_ H]. split; [constructor|exact H].
+  - destruct v2; try (pbmismatch H). simpl in H, W1, W2.
+    apply enc_u64_pf in H as [-> ->]; auto. split; [constructor|reflexivity].
+  - destruct v2; try (pbmismatch H). simpl in H.
+    apply enc_string_pf in H as [-> ->]. split; [constructor|reflexivity].
+  - destruct v2; try (pbmismatch H). simpl in H.
+    apply enc_bool_pf in H as [-> ->]. split; [constructor|reflexivity].
+  - destruct v2; try (pbmismatch H). simpl in H. unfold enc_unset in H. simpl in H.
+    apply cons_eq_inv in H as [_ H]. split; [constructor|exact H].
+  - destruct v2 as [ | | | | |l2| ]; try (pbmismatch H).
+    rewrite !enc_pb_list, <- !app_assoc in H.
+    apply enc_array_hdr_pf in H as [Hn H].
+    apply pb_wf_list in W1, W2.
+    assert (G : Forall2 pb_equiv l l2 /\ r1 = r2).
+    { revert l2 Hn W2 H. induction l as [|a l IHind]; intros [|b l2] Hn W2 H; simpl in *; try discriminate.
+      - split; [constructor|exact H].
+      - rewrite <- !app_assoc in H. inversion IHl as [|? ? Ha IHl']; subst.
+        inversion W1 as [|? ? Wa W1']; subst. inversion W2 as [|? ? Wb W2']; subst.
+        destruct (Ha b _ _ Wa Wb H) as [Hab H'].
+        destruct (IHind IHl' W1' l2) as [Hf Hr]; [lia|assumption|exact H'|].
+        split; [constructor; auto|exact Hr]. }
+    destruct G as [Hf Hr]. split; [constructor; exact Hf|exact Hr].
+  - destruct v2 as [ | | | | | |fs2]; try (pbmismatch H).
+    rewrite !enc_pb_struct, <- !app_assoc in H.
+    apply enc_map_hdr_pf in H as [Hn H].
+    apply pb_wf_struct in W1, W2.
+    assert (P1 := sort_fields_perm fs). assert (P2 := sort_fields_perm fs2).
+    assert (IH' : Forall (fun kv => forall v2 r1 r2, pb_wf (snd kv) = true -> pb_wf v2 = true ->
+                     enc_pb (snd kv) ++ r1 = enc_pb v2 ++ r2 -> pb_equiv (snd kv) v2 /\ r1 = r2)
+                  (sort_fields fs)).
+    { rewrite Forall_forall in *. intros kv Hkv. apply IHfs.
+      eapply Permutation_in; [exact P1|exact Hkv]. }
+    assert (W1' : Forall (fun kv => pb_wf (snd kv) = true) (sort_fields fs)).
+    { rewrite Forall_forall in *. intros kv Hkv. apply W1. eapply Permutation_in; [exact P1|exact Hkv]. }
+    assert (W2' : Forall (fun kv => pb_wf (snd kv) = true) (sort_fields fs2)).
+    { rewrite Forall_forall in *. intros kv Hkv. apply W2. eapply Permutation_in; [exact P2|exact Hkv]. }
+    assert (Hn' : length (sort_fields fs) = length (sort_fields fs2)).
+    { rewrite (Permutation_length P1), (Permutation_length P2). exact Hn. }
+    apply (flat_map_pf kv_bytes kv_bytes (fun a b => fst a = fst b /\ pb_equiv (snd a) (snd b))) in H.
+    + destruct H as [Hf Hr]. split; [|exact Hr].
+      eapply PE_struct; [apply Permutation_sym; exact P1|apply Permutation_sym; exact P2|exact Hf].
+    + exact Hn'.
+    + intros a Ha b Hb s1 s2 E. unfold kv_bytes in E. rewrite <- !app_assoc in E.
+      apply enc_string_pf in E as [Ek E].
+      rewrite Forall_forall in IH', W1', W2'.
+      destruct (IH' a Ha (snd b) _ _ (W1' a Ha) (W2' b Hb) E) as [Hq Hs]. auto.
+Qed.
+
+Corollary enc_pb_inj v1 v2 :
+  pb_wf v1 = true -> pb_wf v2 = true -> enc_pb v1 = enc_pb v2 -> pb_equiv v1 v2.
+Proof.
+  intros W1 W2 H. apply (enc_pb_pf v1 v2 [] []); try assumption. rewrite !app_nil_r. exact H.
+Qed.
+
+(* ---- canonicity: semantically equal values have equal encodings (map keys unique, as in Go) *)
+Lemma nodupb_NoDup l : nodupb l = true -> NoDup l.
+Proof.
+  induction l as [|x l IH]; simpl; intro H; [constructor|].
+  apply andb_true_iff in H as [H1 H2]. constructor; [|apply IH; exact H2].
+  intro Hin. apply negb_true_iff in H1.
+  assert (existsb (beqb x) l = true); [|congruence].
+  apply existsb_exists. exists x. split; [exact Hin|apply beqb_refl].
+Qed.
+
+Lemma NoDup_nodupb l : NoDup l -> nodupb l = true.
+Proof.
+  induction 1 as [|x l Hx Hn IH]; simpl; [reflexivity|].
+  rewrite IH, andb_true_r. apply negb_true_iff.
+  destruct (existsb (beqb x) l) eqn:E; [|reflexivity]. exfalso.
+  apply existsb_exists in E as [y [Hy E]]. apply beqb_eq in E. subst. contradiction.
+Qed.
+
+Lemma nodup_fst_inj {B} (l : list (bytes * B)) a b :
+  NoDup (map fst l) -> In a l -> In b l -> fst a = fst b -> a = b.
+Proof.
+  induction l as [|x l IH]; simpl; intros Hn Ha Hb E; [contradiction|].
+  inversion Hn as [|? ? Hx Hn']; subst.
+  destruct Ha as [->|Ha], Hb as [->|Hb].
+  - reflexivity.
+  - exfalso. apply Hx. rewrite E. apply in_map. exact Hb.
+  - exfalso. apply Hx. rewrite <- E. apply in_map. exact Ha.
+  - apply IH; assumption.
+Qed.
+
+Definition kle {B} (a b : bytes * B) : Prop := ble (fst a) (fst b).
+
+Lemma go_isort_kless_unique {B} (l1 l2 : list (bytes * B)) :
+  Permutation l1 l2 -> NoDup (map fst l1) -> go_isort kless l1 = go_isort kless l2.
+Proof.
+  intros HP Hn. apply (go_isort_unique kless kle).
+  - intros x y H. apply ble_of_blt. exact H.
+  - intros x y H. apply ble_total. exact H.
+  - intros x y z. apply ble_trans.
+  - exact HP.
+  - intros a b Ha Hb H1 H2. eapply nodup_fst_inj; try eassumption. apply ble_antisym; assumption.
+Qed.
+
+Lemma pb_keys_unique_struct fs :
+  pb_keys_unique (PStruct fs) = true ->
+  NoDup (map fst fs) /\ Forall (fun kv => pb_keys_unique (snd kv) = true) fs.
+Proof.
+  simpl. intro H. apply andb_true_iff in H as [H1 H2]. split.
+  - apply nodupb_NoDup. exact H1.
+  - rewrite Forall_forall. rewrite forallb_forall in H2. exact H2.
+Qed.
+
+Theorem enc_pb_equiv v1 : forall v2,
+  pb_equiv v1 v2 -> pb_keys_unique v1 = true -> enc_pb v1 = enc_pb v2.
+Proof.
+  induction v1 as [ |b|s|b| |l IHl|fs IHfs] using pbval_ind'; intros v2 He Hu;
+    inversion He as [ | | | | |l1x l2 Hf|fs1x fs2 fs1' fs2' P1 P2 Hf]; subst; try reflexivity.
+  - (* lists *)
+    rewrite !enc_pb_list.
+    simpl in Hu. rewrite forallb_forall in Hu.
+    assert (G : length l = length l2 /\ flat_map enc_pb l = flat_map enc_pb l2).
+    { clear He. induction Hf as [|a b l l2 Hab Hf IHf]; simpl; [auto|].
+      inversion IHl as [|? ? Ha IHl']; subst.
+      destruct IHf as [Hlen Hfm]; [exact IHl'|intros x Hx; apply Hu; right; exact Hx|].
+      split; [lia|]. rewrite Hfm. f_equal. apply Ha; [exact Hab|apply Hu; left; reflexivity]. }
+    destruct G as [-> ->]. reflexivity.
+  - (* structs *)
+    apply pb_keys_unique_struct in Hu as [Hn Hu].
+    change (enc_pb (PStruct fs)) with
+      (enc_map_hdr (length fs) ++ flat_map ke_bytes (go_isort kless (map kenc fs))).
+    change (enc_pb (PStruct fs2)) with
+      (enc_map_hdr (length fs2) ++ flat_map ke_bytes (go_isort kless (map kenc fs2))).
+    assert (Hm : map kenc fs1' = map kenc fs2').
+    { assert (IH' : Forall (fun kv => forall v2, pb_equiv (snd kv) v2 ->
+                               pb_keys_unique (snd kv) = true -> enc_pb (snd kv) = enc_pb v2) fs1').
+      { rewrite Forall_forall in *. intros kv Hkv. apply IHfs.
+        eapply Permutation_in; [apply Permutation_sym; exact P1|exact Hkv]. }
+      assert (Hu' : Forall (fun kv => pb_keys_unique (snd kv) = true) fs1').
+      { rewrite Forall_forall in *. intros kv Hkv. apply Hu.
+        eapply Permutation_in; [apply Permutation_sym; exact P1|exact Hkv]. }
+      clear P1 P2 He. induction Hf as [|a b l1 l2 [Hk Hab] Hf IHf]; simpl; [reflexivity|].
+      inversion IH' as [|? ? Ha IH'']; subst. inversion Hu' as [|? ? Hua Hu'']; subst.
+      rewrite IHf by assumption. f_equal. unfold kenc. rewrite Hk. f_equal. apply Ha; assumption. }
+    assert (HP : Permutation (map kenc fs) (map kenc fs2)).
+    { rewrite (Permutation_map kenc P1), (Permutation_map kenc P2), Hm. reflexivity. }
+    assert (Hlen : length fs = length fs2).
+    { rewrite <- (map_length kenc fs), <- (map_length kenc fs2). apply Permutation_length. exact HP. }
+    rewrite Hlen. f_equal. f_equal.
+    apply go_isort_kless_unique; [exact HP|].
+    rewrite map_map. simpl. exact Hn.
+Qed.
+
+Lemma pb_equiv_refl v : pb_equiv v v.
+Proof.
+  induction v as [ |b|s|b| |l IHl|fs IHfs] using pbval_ind'; try constructor.
+  - induction IHl; constructor; assumption.
+  - eapply PE_struct; [reflexivity|reflexivity|].
+    induction IHfs; constructor; auto.
+Qed.
+
+(* pbvalue_encode_canonical *)
+Theorem pbvalue_encode_canonical v1 v2 :
+  pb_wf v1 = true -> pb_wf v2 = true -> pb_keys_unique v1 = true ->
+  (enc_pb v1 = enc_pb v2 <-> pb_equiv v1 v2).
+Proof.
+  intros W1 W2 U1. split.
+  - apply enc_pb_inj; assumption.
+  - intro H. apply enc_pb_equiv; assumption.
+Qed.
+
+(* without unique keys (impossible for a Go map) the order of equal keys would leak *)
+Example enc_pb_dup_keys_not_canonical :
+  exists fs1 fs2, Permutation fs1 fs2 /\ enc_pb (PStruct fs1) <> enc_pb (PStruct fs2).
+Proof.
+  exists [([97], PNull); ([97], PUnset)], [([97], PUnset); ([97], PNull)].
+  split; [apply perm_swap|]. vm_compute. discriminate.
+Qed.
+
+(* ------------------------------------------------------------------ the stack walk = the recursive definition *)
+Definition frame_bytes (f : frame) : bytes :=
+  match fst f with Some s => enc_string s | None => [] end ++ enc_pb (snd f).
+Definition frames_size (st : list frame) : nat := list_sum (map (fun f => pb_size (snd f)) st).
+
+Lemma pb_size_pos v : (1 <= pb_size v)%nat.
+Proof. destruct v; simpl; lia. Qed.
+
+Lemma list_sum_perm l1 l2 : Permutation l1 l2 -> list_sum l1 = list_sum l2.
+Proof. induction 1; simpl; lia. Qed.
+
+Lemma frames_size_app a b : frames_size (a ++ b) = (frames_size a + frames_size b)%nat.
+Proof. unfold frames_size. rewrite map_app, list_sum_app. reflexivity. Qed.
+
+Lemma frames_size_list l : frames_size (map (fun x => (None, x)) l) = list_sum (map pb_size l).
+Proof. unfold frames_size. rewrite map_map. reflexivity. Qed.
+
+Lemma frames_size_struct (sf : list (bytes * pbval)) :
+  frames_size (map (fun kv => (Some (fst kv), snd kv)) sf) = list_sum (map (fun kv => pb_size (snd kv)) sf).
+Proof. unfold frames_size. rewrite map_map. reflexivity. Qed.
+
+Lemma pb_size_list l : pb_size (PList l) = S (list_sum (map pb_size l)).
+Proof. reflexivity. Qed.
+
+Lemma pb_size_struct fs : pb_size (PStruct fs) = S (list_sum (map (fun kv => pb_size (snd kv)) fs)).
+Proof. reflexivity. Qed.
+
+Lemma frame_bytes_list l : flat_map (fun x => frame_bytes (None, x)) l = flat_map enc_pb l.
+Proof. reflexivity. Qed.
+
+Lemma frame_bytes_struct (sf : list (bytes * pbval)) :
+  flat_map (fun kv => frame_bytes (Some (fst kv), snd kv)) sf = flat_map kv_bytes sf.
+Proof. reflexivity. Qed.
+
+Lemma pb_walk_correct fuel : forall stack acc,
+  (frames_size stack <= fuel)%nat ->
+  pb_walk fuel stack acc = Some (acc ++ flat_map frame_bytes stack).
+Proof.
+  induction fuel as [|f IH]; intros stack acc Hsz.
+  - destruct stack as [|[k v] st]; simpl.
+    + rewrite app_nil_r. reflexivity.
+    + exfalso. unfold frames_size in Hsz. simpl in Hsz. assert (H := pb_size_pos v). lia.
+  - destruct stack as [|[k v] st].
+    + simpl. rewrite app_nil_r. reflexivity.
+    + assert (Hsz' : (pb_size v + frames_size st <= S f)%nat) by exact Hsz.
+      clear Hsz. rename Hsz' into Hsz. assert (Hp := pb_size_pos v).
+      cbn [flat_map]. unfold frame_bytes at 1. cbn [fst snd].
+      destruct v as [ |b|s|b| |l|fs]; cbn [pb_walk];
+        try (rewrite IH by (simpl in Hsz; lia); rewrite <- !app_assoc; reflexivity).
+      * (* list *)
+        rewrite pb_size_list in Hsz.
+        rewrite IH.
+        -- f_equal. rewrite flat_map_app, flat_map_map, frame_bytes_list, enc_pb_list, <- !app_assoc.
+           reflexivity.
+        -- rewrite frames_size_app, frames_size_list. lia.
+      * (* struct *)
+        rewrite pb_size_struct in Hsz.
+        rewrite IH.
+        -- f_equal. rewrite flat_map_app, flat_map_map, frame_bytes_struct, enc_pb_struct, <- !app_assoc.
+           rewrite (Permutation_length (sort_fields_perm fs)). reflexivity.
+        -- rewrite frames_size_app, frames_size_struct.
+           rewrite (list_sum_perm _ _ (Permutation_map (fun kv => pb_size (snd kv)) (sort_fields_perm fs))).
+           lia.
+Qed.
+
+Theorem pb_write_total v : pb_write_outcome v = Bytes (enc_pb v).
+Proof.
+  unfold pb_write_outcome. rewrite pb_walk_correct.
+  - simpl. unfold frame_bytes. simpl. rewrite app_nil_r. reflexivity.
+  - unfold frames_size. simpl. lia.
+Qed.
+
+(* the iterative walk of PbValue.WriteTo computes exactly the recursive specification *)
+Theorem pb_write_eq_rec v : pb_write v = enc_pb v.
+Proof. unfold pb_write. rewrite pb_write_total. reflexivity. Qed.
+
+Example pb_write_example :
+  pb_write (PStruct [([98], PList [PBool true; PNull]); ([97], PStruct [([120], PStr [121])])])
+  = [7; 2; 4; 1; 97; 7; 1; 4; 1; 120; 4; 1; 121; 4; 1; 98; 6; 2; 2; 1; 0].
+Proof. vm_compute. reflexivity. Qed.
